@@ -542,6 +542,10 @@ impl Cmap12 {
     }
 }
 
+#[cfg(googlefonts_fontations_verif)]
+#[path = "/verif/harness/incrate/cmap.rs"]
+mod verif_harness;
+
 #[cfg(test)]
 mod tests {
     use std::ops::RangeInclusive;
